@@ -352,7 +352,8 @@ def write_replay(prop_id, case, clause, ident, detail, tag):
     path = os.path.join(d, "%s-%s.json" % (prop_id, tag))
     with open(path, "w") as f:
         json.dump({"property": prop_id, "clause": clause, "ident": ident,
-                   "detail": detail, "case": case}, f, indent=1, sort_keys=True)
+                   "detail": detail, "case": case, "python_optimize": bool(sys.flags.optimize)},
+                  f, indent=1, sort_keys=True)
     return path
 
 
